@@ -132,9 +132,11 @@ func c15History(ctx *core.Ctx, idx int) core.Result {
 			last = 100 // only low parameters referenced: the definition itself addresses nothing out of range
 		}
 		def := "zf = (" + strings.Join(ps, ", ") + ") -> " + ps[0] + " + " + ps[last]
+		refusedBefore := refused
 		if bad := check(def, "", false); bad != "" {
 			return fail(bad)
 		}
+		defRefused := refused > refusedBefore
 		call := "write(zf(" + strings.Join(as, ", ") + "))"
 		if bad := check(call, "2", false); bad != "" {
 			return fail(bad)
@@ -146,8 +148,9 @@ func c15History(ctx *core.Ctx, idx int) core.Result {
 			if pan != nil {
 				return fail(fmt.Sprintf("call with %d arguments aborted: %v", m, pan))
 			}
-			if strings.HasPrefix(out, "ran:") {
-				return fail(fmt.Sprintf("a function defined with %d parameters accepted a call with %d arguments (parameter count wrapped around): printed %q", n, m, trunc(out, 100)))
+			okOutcome := strings.HasPrefix(out, refusal) || strings.Contains(out, "RUNTIME ERROR : arity mismatch") || (defRefused && strings.Contains(out, "RUNTIME ERROR : type error"))
+			if !okOutcome {
+				return fail(fmt.Sprintf("a function defined with %d parameters accepted a call with %d arguments (parameter count wrapped around): %q", n, m, trunc(out, 160)))
 			}
 			res.Tag("history:wrapped-arity-probe")
 		}
